@@ -85,11 +85,22 @@ BASE = {"forward_euler": "explicit_euler", "forward_explicit_euler": "explicit_e
         "rush_larsen": "hybrid_rush_larsen", "hybrid_rush_larsen": "hybrid_rush_larsen"}
 
 
+import gotranx.schemes as _S
+_ORIG = {n: getattr(_S, n).__code__ for n in ("explicit_euler", "generalized_rush_larsen", "hybrid_rush_larsen")}
+
+
+def _fresh_process():
+    # every explored path starts from the state of a fresh process (CrossHair runs all paths in one interpreter)
+    for n, c in _ORIG.items():
+        getattr(_S, n).__code__ = c
+
+
 def history_independent(h0: int, h1: int, last: int) -> bool:
     """
     pre: 0 <= h0 < 9 and 0 <= h1 < 9 and 0 <= last < 9
     post: _
     """
+    _fresh_process()
     get_scheme(NAMES[h0])
     get_scheme(NAMES[h1])
     f = get_scheme(NAMES[last])
